@@ -85,12 +85,78 @@ Qed.
 Lemma latest_snoc h x f : latest (h ++ [x]) f = upd_latest f (latest h f) x.
 Proof. unfold latest. rewrite foldl_app. reflexivity. Qed.
 
+Lemma upd1_fold_lbls f pend : forall acc a,
+  (forall a0, acc = Some a0 -> a_lbls a0 = f) -> foldl (upd1 f) acc pend = Some a -> a_lbls a = f.
+Proof.
+  induction pend as [|p pend IH]; intros acc a Hacc; simpl.
+  - apply Hacc.
+  - apply IH. unfold upd1. case_bool_decide as Hp; [|exact Hacc]. intros a0 [= <-]. exact Hp.
+Qed.
+
 Lemma latest_lbls h : forall f a, latest h f = Some a -> a_lbls a = f.
 Proof.
   induction h as [|x h IH] using rev_ind; intros f a.
   - discriminate.
-  - rewrite latest_snoc. unfold upd_latest. destruct (snd x) as [b|sel|]; try apply IH.
-    case_bool_decide as Hb; [|apply IH]. intros [= ->]. exact Hb.
+  - rewrite latest_snoc. unfold upd_latest. destruct (snd x) as [b|sel| |snap pend]; try apply IH.
+    + unfold upd1. case_bool_decide as Hb; [|apply IH]. intros [= ->]. exact Hb.
+    + apply upd1_fold_lbls. intros a0. apply IH.
+Qed.
+
+(* the updates that arrive during a restart count as publications, in order *)
+Lemma latest_pending h t pend f :
+  latest (h ++ map (fun a => (t, OProcess a)) pend) f = foldl (upd1 f) (latest h f) pend.
+Proof.
+  unfold latest. rewrite foldl_app. generalize (foldl (upd_latest f) None h). 
+  induction pend as [|p pend IH]; intros acc; simpl; [reflexivity|]. rewrite IH. reflexivity.
+Qed.
+
+Lemma hist_ok_snoc h : forall pre x, hist_ok pre (h ++ [x]) <-> hist_ok pre h /\ op_ok (pre ++ h) x.
+Proof.
+  induction h as [|y h IH]; intros pre x; simpl.
+  - rewrite app_nil_r. tauto.
+  - rewrite IH, <- app_assoc. simpl. tauto.
+Qed.
+
+Lemma hist_ok_no_restart h : forall pre,
+  (forall x, In x h -> match snd x with ORestart _ _ => False | _ => True end) -> hist_ok pre h.
+Proof.
+  induction h as [|x h IH]; intros pre H; simpl; [exact I|]. split.
+  - unfold op_ok. specialize (H x (or_introl eq_refl)). destruct (snd x); try exact I. destruct H.
+  - apply IH. intros y Hy. apply H. right. exact Hy.
+Qed.
+
+(* the boolean snapshot check is sound *)
+Lemma upd1_fold_cases f pend : forall acc a,
+  foldl (upd1 f) acc pend = Some a -> acc = Some a \/ In f (map a_lbls pend).
+Proof.
+  induction pend as [|p pend IH]; intros acc a; simpl; [auto|]. intros H. apply IH in H as [H|H]; [|auto].
+  unfold upd1 in H. case_bool_decide as Hp; auto.
+Qed.
+
+Lemma latest_in_fps h : forall f a, latest h f = Some a -> In f (hist_fps h).
+Proof.
+  induction h as [|x h IH] using rev_ind; intros f a; [discriminate|].
+  rewrite latest_snoc. unfold hist_fps. rewrite flat_map_app, in_app_iff. simpl. rewrite app_nil_r.
+  unfold upd_latest, op_fps. destruct (snd x) as [b|sel| |snap pend].
+  - unfold upd1. case_bool_decide as Hb; [intros _; right; left; exact Hb|]. intros H. left. exact (IH f a H).
+  - intros H. left. exact (IH f a H).
+  - intros H. left. exact (IH f a H).
+  - intros H. apply upd1_fold_cases in H as [H|H]; [left; exact (IH f a H)|right; exact H].
+Qed.
+
+Lemma snap_okb_sound pre t snap : snap_okb pre t snap = true -> snap_ok pre t snap.
+Proof.
+  unfold snap_okb, snap_ok. rewrite andb_true_iff, !forallb_forall. intros [H1 H2]. split.
+  - intros a Ha. exact (bool_decide_eq_true_1 _ (H1 a Ha)).
+  - intros f a Hl Hr. specialize (H2 f (latest_in_fps _ _ _ Hl)). rewrite Hl, Hr in H2. simpl in H2.
+    apply elem_of_list_In. exact (bool_decide_eq_true_1 _ H2).
+Qed.
+
+Lemma hist_okb_sound h : forall pre, hist_okb pre h = true -> hist_ok pre h.
+Proof.
+  induction h as [|x h IH]; intros pre; simpl; [auto|]. rewrite andb_true_iff. intros [H1 H2].
+  split; [|exact (IH _ H2)]. unfold op_ok. unfold op_okb in H1. destruct (snd x); try exact I.
+  apply snap_okb_sound. exact H1.
 Qed.
 
 Lemma eqkey_eq_on c s t : eqkey c s = eqkey c t <-> eq_on (r_equal c) s t.
@@ -105,6 +171,7 @@ Section Proofs.
     | OProcess a => process_rule re a r
     | OGC sel => if sel (ir_cfg r) then gc_rule (fst x) r else r
     | OTick => r
+    | ORestart snap pend => restart_rule re snap pend r
     end.
   Definition run_rule (c : rule) (h : list (Z * op)) : irule := foldl step_rule (new_rule c) h.
 
@@ -153,33 +220,122 @@ Section Proofs.
     - exact Hix.
   Qed.
 
-  Lemma inv_step c h t r now o :
+  Lemma inv_ext c h h' t r : (forall f, latest h f = latest h' f) -> inv c h t r -> inv c h' t r.
+  Proof.
+    intros He [Hcfg Hsc Hlat Hix]. split.
+    - exact Hcfg.
+    - intros f a H. rewrite <- He. exact (Hsc f a H).
+    - intros f a. rewrite <- He. exact (Hlat f a).
+    - exact Hix.
+  Qed.
+
+  (* ----- start-up of a new inhibitor: snapshot, then the updates that arrived during the load ----- *)
+  Lemma process_cfg a r : ir_cfg (process_rule re a r) = ir_cfg r.
+  Proof. unfold process_rule. destruct (ms_matches re (r_src (ir_cfg r)) (a_lbls a)); reflexivity. Qed.
+
+  Lemma process_keys a r f : is_Some (ir_sc r !! f) -> is_Some (ir_sc (process_rule re a r) !! f).
+  Proof.
+    unfold process_rule. destruct (ms_matches re (r_src (ir_cfg r)) (a_lbls a)); [|auto]. simpl. intros H.
+    destruct (decide (a_lbls a = f)) as [<-|Hne]; [rewrite lookup_insert; eauto|rewrite lookup_insert_ne; auto].
+  Qed.
+
+  Lemma process_self a r :
+    ms_matches re (r_src (ir_cfg r)) (a_lbls a) = true -> is_Some (ir_sc (process_rule re a r) !! a_lbls a).
+  Proof. unfold process_rule. intros ->. simpl. rewrite lookup_insert. eauto. Qed.
+
+  Lemma fold_cfg l : forall r, ir_cfg (foldl (fun r a => process_rule re a r) r l) = ir_cfg r.
+  Proof. induction l as [|a l IH]; intros r; simpl; [reflexivity|]. rewrite IH. apply process_cfg. Qed.
+
+  Lemma fold_keys l : forall r f,
+    is_Some (ir_sc r !! f) -> is_Some (ir_sc (foldl (fun r a => process_rule re a r) r l) !! f).
+  Proof. induction l as [|a l IH]; intros r f H; simpl; [exact H|]. apply IH. apply process_keys. exact H. Qed.
+
+  Lemma fold_mem l : forall r a,
+    In a l -> ms_matches re (r_src (ir_cfg r)) (a_lbls a) = true ->
+    is_Some (ir_sc (foldl (fun r a => process_rule re a r) r l) !! a_lbls a).
+  Proof.
+    induction l as [|b l IH]; intros r a Hin Hm; simpl; [destruct Hin|]. destruct Hin as [->|Hin].
+    - apply fold_keys. apply process_self. exact Hm.
+    - apply IH; [exact Hin|]. rewrite process_cfg. exact Hm.
+  Qed.
+
+  (* while the snapshot is processed: everything cached is the provider's latest version *)
+  Record sinv (c : rule) (pre : list (Z * op)) (r : irule) : Prop := mkSInv {
+    s_cfg : ir_cfg r = c;
+    s_sc : forall f a, ir_sc r !! f = Some a ->
+      a_lbls a = f /\ latest pre f = Some a /\ ms_matches re (r_src c) f = true /\ f ∈ ix_get (ir_ix r) (eqkey c f);
+    s_ix : forall k f, f ∈ ix_get (ir_ix r) k -> eqkey c f = k }.
+
+  Lemma sinv_process c pre r a :
+    sinv c pre r -> latest pre (a_lbls a) = Some a -> sinv c pre (process_rule re a r).
+  Proof.
+    intros [Hcfg Hsc Hix] Hl. unfold process_rule. rewrite Hcfg.
+    destruct (ms_matches re (r_src c) (a_lbls a)) eqn:Hm; [|split; assumption].
+    split; simpl.
+    - reflexivity.
+    - intros f a0 H. apply lookup_insert_Some in H as [[Hf Ha]|[Hf H]].
+      + subst a0. subst f. repeat split; auto. apply elem_ix_add. right. auto.
+      + destruct (Hsc f a0 H) as (H1 & H2 & H3 & H4). repeat split; auto. apply elem_ix_add. left. exact H4.
+    - intros k f H. apply elem_ix_add in H as [H|[-> ->]]; [exact (Hix k f H)|reflexivity].
+  Qed.
+
+  Lemma sinv_fold c pre l : forall r,
+    sinv c pre r -> (forall a, In a l -> latest pre (a_lbls a) = Some a) ->
+    sinv c pre (foldl (fun r a => process_rule re a r) r l).
+  Proof.
+    induction l as [|a l IH]; intros r Hs Hl; simpl; [exact Hs|].
+    apply IH; [apply sinv_process; [exact Hs|apply Hl; left; reflexivity]|]. intros b Hb. apply Hl. right. exact Hb.
+  Qed.
+
+  Lemma inv_snapshot c pre t snap :
+    snap_ok pre t snap -> inv c pre t (foldl (fun r a => process_rule re a r) (new_rule c) snap).
+  Proof.
+    intros [Hs1 Hs2].
+    assert (Hs : sinv c pre (foldl (fun r a => process_rule re a r) (new_rule c) snap)).
+    { apply sinv_fold; [|exact Hs1]. split; simpl.
+      - reflexivity.
+      - intros f a H. rewrite lookup_empty in H. discriminate.
+      - intros k f H. unfold ix_get in H. rewrite lookup_empty in H. simpl in H. inversion H. }
+    destruct Hs as [Hcfg Hsc Hix]. split.
+    - exact Hcfg.
+    - exact Hsc.
+    - intros f a Hl Hm. destruct (resolved_at a t) eqn:Hr; [right; reflexivity|left].
+      pose proof (latest_lbls _ _ _ Hl) as Hf. pose proof (Hs2 f a Hl Hr) as Hin.
+      destruct (fold_mem snap (new_rule c) a Hin) as [a' Ha'].
+      { simpl. rewrite Hf. exact Hm. }
+      destruct (Hsc _ _ Ha') as (_ & H2 & _). rewrite Hf in H2, Ha'. rewrite Hl in H2. injection H2 as <-. exact Ha'.
+    - exact Hix.
+  Qed.
+
+  Lemma inv_step0 c h t r now o :
+    match o with ORestart _ _ => False | _ => True end ->
     inv c h t r -> t <= now -> inv c (h ++ [(now, o)]) now (step_rule r (now, o)).
   Proof.
-    intros Hinv Hle. pose proof Hinv as [Hcfg Hsc Hlat Hix]. unfold step_rule. simpl. destruct o as [a|sel|].
+    intros Hno Hinv Hle. pose proof Hinv as [Hcfg Hsc Hlat Hix]. unfold step_rule. simpl.
+    destruct o as [a|sel| |snap pend]; [| | |destruct Hno].
     - (* OProcess *)
       unfold process_rule. rewrite Hcfg.
       destruct (ms_matches re (r_src c) (a_lbls a)) eqn:Hm.
       + split; simpl.
         * reflexivity.
         * intros f a0 H. rewrite latest_snoc. unfold upd_latest. simpl.
-          apply lookup_insert_Some in H as [[Hf Ha]|[Hf H]].
+          unfold upd1. apply lookup_insert_Some in H as [[Hf Ha]|[Hf H]].
           { subst a0. subst f. rewrite bool_decide_eq_true_2 by reflexivity.
             repeat split; auto. apply elem_ix_add. right. auto. }
           { rewrite bool_decide_eq_false_2 by exact Hf.
             destruct (Hsc f a0 H) as (H1 & H2 & H3 & H4). repeat split; auto. apply elem_ix_add. left. exact H4. }
-        * intros f a0. rewrite latest_snoc. unfold upd_latest. simpl. case_bool_decide as Hf.
+        * intros f a0. rewrite latest_snoc. unfold upd_latest, upd1. simpl. case_bool_decide as Hf.
           { intros [= ->] _. left. subst f. apply lookup_insert. }
           { intros H1 H2. rewrite lookup_insert_ne by exact Hf.
             destruct (Hlat f a0 H1 H2) as [H|H]; [left; exact H|right; exact (resolved_mono _ _ _ Hle H)]. }
         * intros k f H. apply elem_ix_add in H as [H|[-> ->]]; [exact (Hix k f H)|reflexivity].
       + split.
         * exact Hcfg.
-        * intros f a0 H. destruct (Hsc f a0 H) as (H1 & H2 & H3 & H4). rewrite latest_snoc. unfold upd_latest. simpl.
+        * intros f a0 H. destruct (Hsc f a0 H) as (H1 & H2 & H3 & H4). rewrite latest_snoc. unfold upd_latest, upd1. simpl.
           case_bool_decide as Hf.
           { rewrite <- Hf in H3. rewrite H3 in Hm. discriminate. }
           { repeat split; auto. }
-        * intros f a0. rewrite latest_snoc. unfold upd_latest. simpl. case_bool_decide as Hf.
+        * intros f a0. rewrite latest_snoc. unfold upd_latest, upd1. simpl. case_bool_decide as Hf.
           { intros _ H2. rewrite <- Hf in H2. rewrite H2 in Hm. discriminate. }
           { intros H1 H2. destruct (Hlat f a0 H1 H2) as [H|H]; [left; exact H|right; exact (resolved_mono _ _ _ Hle H)]. }
         * exact Hix.
@@ -204,12 +360,37 @@ Section Proofs.
       apply (inv_idle c h t r now OTick); [|exact Hinv|exact Hle]. intros f. rewrite latest_snoc. reflexivity.
   Qed.
 
-  Lemma inv_run c h : forall t0, mono_from t0 h -> inv c h (last_time t0 h) (run_rule c h).
+  Lemma inv_pending c t pend : forall h r,
+    inv c h t r -> inv c (h ++ map (fun a => (t, OProcess a)) pend) t (foldl (fun r a => process_rule re a r) r pend).
   Proof.
-    induction h as [|[t o] h IH] using rev_ind; intros t0 Hm.
+    induction pend as [|p pend IH]; intros h r Hinv; simpl.
+    - rewrite app_nil_r. exact Hinv.
+    - replace (h ++ (t, OProcess p) :: map (fun a => (t, OProcess a)) pend)
+        with ((h ++ [(t, OProcess p)]) ++ map (fun a => (t, OProcess a)) pend) by (rewrite <- app_assoc; reflexivity).
+      apply IH. apply (inv_step0 c h t r t (OProcess p) I Hinv). lia.
+  Qed.
+
+  Lemma inv_step c h t r now o :
+    op_ok h (now, o) -> inv c h t r -> t <= now -> inv c (h ++ [(now, o)]) now (step_rule r (now, o)).
+  Proof.
+    intros Hok Hinv Hle.
+    destruct o as [a|sel| |snap pend];
+      [exact (inv_step0 c h t r now (OProcess a) I Hinv Hle)|exact (inv_step0 c h t r now (OGC sel) I Hinv Hle)|
+       exact (inv_step0 c h t r now OTick I Hinv Hle)|].
+    unfold op_ok in Hok. simpl in Hok. unfold step_rule, restart_rule. simpl.
+    rewrite (inv_cfg _ _ _ _ Hinv), foldl_app.
+    apply (inv_ext c (h ++ map (fun a => (now, OProcess a)) pend)).
+    - intros f. rewrite latest_pending, latest_snoc. reflexivity.
+    - apply inv_pending. apply inv_snapshot. exact Hok.
+  Qed.
+
+  Lemma inv_run c h : forall t0, mono_from t0 h -> hist_ok [] h -> inv c h (last_time t0 h) (run_rule c h).
+  Proof.
+    induction h as [|[t o] h IH] using rev_ind; intros t0 Hm Hok.
     - apply inv_init.
-    - apply mono_from_snoc in Hm as [Hm Hle]. rewrite last_time_snoc. unfold run_rule. rewrite foldl_app. simpl.
-      apply (inv_step c h (last_time t0 h)); [exact (IH t0 Hm)|exact Hle].
+    - apply mono_from_snoc in Hm as [Hm Hle]. apply hist_ok_snoc in Hok as [Hok Hop]. simpl in Hop.
+      rewrite last_time_snoc. unfold run_rule. rewrite foldl_app. simpl.
+      apply (inv_step c h (last_time t0 h)); [exact Hop|exact (IH t0 Hm Hok)|exact Hle].
   Qed.
 
   (* ---------- one rule: the usable indexed sources are exactly the firing witnesses ---------- *)
@@ -270,30 +451,30 @@ Section Proofs.
 
   (* ---------- C03 ---------- *)
   Lemma mutes_witnesses cfgs h t0 now lset fs :
-    mono_from t0 h -> last_time t0 h <= now ->
+    mono_from t0 h -> hist_ok [] h -> last_time t0 h <= now ->
     mutes re (run re (map new_rule cfgs) h) lset now = Some fs ->
     fs <> [] /\ exists c, In c cfgs /\ forall f, f ∈ fs ->
       exists s, firing h now s /\ a_lbls s = f /\ inhibits re c s lset.
   Proof.
-    intros Hm Hle H. rewrite run_new in H. apply mutes_some in H as (Hne & r & Hr & Ht & Hc).
+    intros Hm Hok Hle H. rewrite run_new in H. apply mutes_some in H as (Hne & r & Hr & Ht & Hc).
     split; [exact Hne|]. apply elem_of_list_fmap in Hr as (c & -> & Hin).
-    pose proof (inv_run c h t0 Hm) as Hinv. exists c. split; [apply elem_of_list_In; exact Hin|].
+    pose proof (inv_run c h t0 Hm Hok) as Hinv. exists c. split; [apply elem_of_list_In; exact Hin|].
     intros f Hf. rewrite <- Hc in Hf. destruct (candidates_sound _ _ _ _ _ _ _ Hinv Hf) as (s & H1 & H2 & H3).
     exists s. split; [exact H1|split; [exact H2|]]. apply H3. rewrite <- (inv_cfg _ _ _ _ Hinv). exact Ht.
   Qed.
 
   Lemma mutes_iff_spec cfgs h t0 now lset :
-    mono_from t0 h -> last_time t0 h <= now ->
+    mono_from t0 h -> hist_ok [] h -> last_time t0 h <= now ->
     (muted re (run re (map new_rule cfgs) h) lset now = true <-> inhibited re cfgs (firing h now) lset).
   Proof.
-    intros Hm Hle. unfold muted. split.
+    intros Hm Hok Hle. unfold muted. split.
     - destruct (mutes re (run re (map new_rule cfgs) h) lset now) as [fs|] eqn:H; [|discriminate]. intros _.
-      destruct (mutes_witnesses _ _ _ _ _ _ Hm Hle H) as (Hne & c & Hin & Hw).
+      destruct (mutes_witnesses _ _ _ _ _ _ Hm Hok Hle H) as (Hne & c & Hin & Hw).
       destruct fs as [|f fs]; [contradiction|]. destruct (Hw f) as (s & H1 & _ & H3); [apply elem_of_cons; auto|].
       exists c, s. auto.
     - intros (c & s & Hin & Hf & Hi).
       destruct (mutes re (run re (map new_rule cfgs) h) lset now) as [fs|] eqn:H; [reflexivity|]. exfalso.
-      rewrite run_new in H. pose proof (inv_run c h t0 Hm) as Hinv.
+      rewrite run_new in H. pose proof (inv_run c h t0 Hm Hok) as Hinv.
       assert (Hc : candidates re (run_rule c h) lset now = []).
       { apply (mutes_none _ _ _ _ H).
         - apply elem_of_list_fmap. exists c. split; [reflexivity|apply elem_of_list_In; exact Hin].
@@ -303,25 +484,27 @@ Section Proofs.
 
   (* the verdict depends only on the set of currently firing alerts *)
   Lemma verdict_depends_only_on_firing cfgs h1 h2 t1 t2 now lset :
-    mono_from t1 h1 -> last_time t1 h1 <= now -> mono_from t2 h2 -> last_time t2 h2 <= now ->
+    mono_from t1 h1 -> hist_ok [] h1 -> last_time t1 h1 <= now ->
+    mono_from t2 h2 -> hist_ok [] h2 -> last_time t2 h2 <= now ->
     (forall s, firing h1 now s <-> firing h2 now s) ->
     muted re (run re (map new_rule cfgs) h1) lset now = muted re (run re (map new_rule cfgs) h2) lset now.
   Proof.
-    intros Hm1 Hl1 Hm2 Hl2 Heq.
+    intros Hm1 Hk1 Hl1 Hm2 Hk2 Hl2 Heq.
     assert (Hiff : inhibited re cfgs (firing h1 now) lset <-> inhibited re cfgs (firing h2 now) lset).
     { unfold inhibited. split; intros (c & s & H1 & H2 & H4); exists c, s; (split; [exact H1|split; [|exact H4]]);
         apply Heq; exact H2. }
-    rewrite <- (mutes_iff_spec cfgs h1 t1 now lset Hm1 Hl1), <- (mutes_iff_spec cfgs h2 t2 now lset Hm2 Hl2) in Hiff.
+    rewrite <- (mutes_iff_spec cfgs h1 t1 now lset Hm1 Hk1 Hl1), <- (mutes_iff_spec cfgs h2 t2 now lset Hm2 Hk2 Hl2) in Hiff.
     destruct (muted re (run re (map new_rule cfgs) h1) lset now), (muted re (run re (map new_rule cfgs) h2) lset now);
       try reflexivity; [symmetry|]; apply Hiff; reflexivity.
   Qed.
 
   Lemma order_independent cfgs h1 h2 t1 t2 now lset :
-    mono_from t1 h1 -> last_time t1 h1 <= now -> mono_from t2 h2 -> last_time t2 h2 <= now ->
+    mono_from t1 h1 -> hist_ok [] h1 -> last_time t1 h1 <= now ->
+    mono_from t2 h2 -> hist_ok [] h2 -> last_time t2 h2 <= now ->
     (forall f, latest h1 f = latest h2 f) ->
     muted re (run re (map new_rule cfgs) h1) lset now = muted re (run re (map new_rule cfgs) h2) lset now.
   Proof.
-    intros Hm1 Hl1 Hm2 Hl2 Heq. apply (verdict_depends_only_on_firing cfgs h1 h2 t1 t2); auto.
+    intros Hm1 Hk1 Hl1 Hm2 Hk2 Hl2 Heq. apply (verdict_depends_only_on_firing cfgs h1 h2 t1 t2); auto.
     intros s. unfold firing. rewrite Heq. tauto.
   Qed.
 
@@ -374,6 +557,7 @@ Section OldIndex.
     | OProcess a => map (old_process a) ih
     | OGC sel => map (fun r => if sel (or_cfg r) then old_gc (fst x) r else r) ih
     | OTick => ih
+    | ORestart snap pend => map (fun r => foldl (fun r a => old_process a r) (mkOR (or_cfg r) ∅ ∅) (snap ++ pend)) ih
     end.
   (* the old hasEqual / findEqualSourceAlert *)
   Definition old_has_equal (r : orule) (lset : list (string * string)) (now : Z) : bool :=
